@@ -1,6 +1,6 @@
 """Generic check driver: build, proof obligations, correspondence, oracle sweep, classification, evidence."""
 import importlib, json, os, random, sys, time
-from . import build
+from . import build, srcpin
 
 ROOT = build.ROOT
 
@@ -141,6 +141,10 @@ def run_check(mod, ctx):
              "kinds": {}, "samples": []}
     if exe or getattr(mod, "NEEDS_NO_MODEL", False):
         budget = 1 if not broken else 5
+        src_changed = srcpin.changed(ctx.repo)
+        if src_changed and ctx.quick:
+            budget = max(budget, 6)      # a changed tree is where a failing input is worth a longer search
+        cov["source_vs_pinned_tree"] = {"changed_files": src_changed, "case_budget_factor": budget}
         try:
             res = correspond(mod, ctx, exe, budget)
         except Exception as ex:       # harness failure must not look like a pass
